@@ -342,7 +342,21 @@ pub fn main() {
     let opts = parse_args();
     silence_panics();
     let report = match opts.property.as_str() {
-        "C01" | "C05" | "C11" | "C12" => prove::run(&opts, &opts.property.clone()),
+        "C01" | "C11" | "C12" => prove::run(&opts, &opts.property.clone()),
+        "C05" => {
+            // honest-only handler histories + the completeness of the difficulty checks every
+            // honest proof depends on (the function-level differential run of C14, whose
+            // "legal history rejected" oracle is a C05 violation: an honest peer would be banned)
+            let mut r = prove::run(&opts, "C05");
+            if opts.replay.is_none() {
+                let mut d = c14::run(&opts);
+                for v in d.violations.iter_mut() {
+                    v.signature = format!("C05|difficulty-check|{}", v.signature);
+                }
+                r.merge(d);
+            }
+            r
+        }
         "C03" => {
             // storage level (keyspace dumps against the Index model) + the delivery path: a full
             // client on a growing chain against the ground truth
